@@ -76,16 +76,18 @@ def parse_out(out):
 
 
 def evaluate(ck, vecs, h, use_bash=True):
-    ires = vlib.run_harness(h, "shfast", [{"src": PRE + body(v) + "\n"} for v in vecs], shards=16)
-    dres = vlib.run_harness(h, "fields", [{"src": raw(v["src"]), "ifs": {"set": v["ifs"]["set"], "val": raw(v["ifs"]["val"])},
-                                           "v": {"set": v["v"]["set"], "val": raw(v["v"]["val"])},
-                                           "w": {"set": v["w"]["set"], "val": raw(v["w"]["val"])},
-                                           "params": [raw(p) for p in v["params"]]} for v in vecs], shards=16)
-    if use_bash:
-        bres = vlib.run_shell_evals(["unset IFS v w; set --; " + body(v) for v in vecs], prelude=PRE,
-                                    locale="C.utf8", jobs=4, per_process=4000)
-    else:
-        bres = [None] * len(vecs)
+    from concurrent.futures import ThreadPoolExecutor
+    with ThreadPoolExecutor(max_workers=3) as ex:     # the three bindings run side by side
+        f_i = ex.submit(vlib.run_harness, h, "shfast", [{"src": PRE + body(v) + "\n"} for v in vecs], shards=8)
+        f_d = ex.submit(vlib.run_harness, h, "fields", [
+            {"src": raw(v["src"]), "ifs": {"set": v["ifs"]["set"], "val": raw(v["ifs"]["val"])},
+             "v": {"set": v["v"]["set"], "val": raw(v["v"]["val"])},
+             "w": {"set": v["w"]["set"], "val": raw(v["w"]["val"])},
+             "params": [raw(p) for p in v["params"]]} for v in vecs], shards=4)
+        f_b = ex.submit(vlib.run_shell_evals, ["unset IFS v w; set --; " + body(v) for v in vecs], prelude=PRE,
+                        locale="C.utf8", jobs=4, per_process=4000) if use_bash else None
+        ires, dres = f_i.result(), f_d.result()
+        bres = f_b.result() if f_b else [None] * len(vecs)
     for v, ir, dr, br in zip(vecs, ires, dres, bres):
         spec_f = [raw(f) for f in v["exp"]]
         spec = fmt(spec_f)
